@@ -453,7 +453,14 @@ def run_frame_history(ctx, c):
                         if g is None:
                             continue
                     mop = ('extframe', labs)
+                    if r % 4 == 1:
+                        g = g.to_frame_go()      # the frame handed over can itself grow afterwards
                     t.extend(g)
+                    if r % 2:
+                        # the frame that was handed over stays in use: it must not follow the container it was added to, nor the
+                        # other way round (bookkeeping adopted from it must be the container's own)
+                        h.live.append(g)
+                        ctx.count('extend_source_kept_live')
                 elif op in ('extend_items', 'extend_items_partdup', 'extend_items_badlen'):
                     labs = []
                     for _k in range(3):
